@@ -14,6 +14,8 @@ Definition nat_set_exact (model obs : list nat) : bool :=
 Inductive link_case :=
 | Hist (univ : list link) (me : Z)
        (startup : bool)                   (* true: the transport constructor has not returned yet (Ready is in h) *)
+       (early : list action)              (* HandleLinkEstablished calls made before/during construction: they
+                                             block until the constructor returns and then run in some order *)
        (held : list (Z * Z))              (* directives already referenced (running) before the history *)
        (h : list action)
        (obs : list (list nat))            (* per action: directive values of a Resolve, [] otherwise *)
@@ -47,18 +49,28 @@ Fixpoint perms {A} (l : list A) : list (list A) :=
   | x :: t => flat_map (inserts x) (perms t)
   end.
 
+(* the lock regions of the early callbacks run right after the Ready region *)
+Fixpoint insert_after_ready (q h : list action) : list action :=
+  match h with
+  | [] => q
+  | Ready :: h' => Ready :: q ++ h'
+  | a :: h' => a :: insert_after_ready q h'
+  end.
+
 Definition link_agree (c : link_case) : bool :=
   match c with
-  | Hist univ me startup held h obs links by_peer gpl closed =>
+  | Hist univ me startup early held h obs links by_peer gpl closed =>
       let U := univ_fn univ in
       let s0 := set_dirs (if startup then init0 me else init me) (map (fun k => (fst k, snd k, [])) held) in
-      let s := run_from U s0 h in
-      list_list_eqb (trace U s0 h) obs
-      && links_eqb (st_links s) links
-      && Nat.eqb (length (st_by_peer s)) (length by_peer)
-      && forallb (fun e => nat_set_exact (peer_links (fst e) s) (snd e)) by_peer
-      && forallb (fun e => nat_set_exact (get_peer_links U s (fst e)) (snd e)) gpl
-      && nat_set_eqb (st_closed s) closed
+      existsb (fun perm =>
+        let h' := insert_after_ready perm h in
+        let s := run_from U s0 h' in
+        list_list_eqb (trace U s0 h') obs
+        && links_eqb (st_links s) links
+        && Nat.eqb (length (st_by_peer s)) (length by_peer)
+        && forallb (fun e => nat_set_exact (peer_links (fst e) s) (snd e)) by_peer
+        && forallb (fun e => nat_set_exact (get_peer_links U s (fst e)) (snd e)) gpl
+        && nat_set_eqb (st_closed s) closed) (perms early)
   | Stream univ p dl dr sp mr =>
       let U := univ_fn univ in
       Z.eqb (fst (incoming_directive U p)) dl && Z.eqb (snd (incoming_directive U p)) dr
